@@ -115,6 +115,35 @@ def check_nest_law(out, d1, d2, s1, s2, aty):
         out.violation(k, what, replay)
 
 
+def check_nest3_law(out, d1, d2, d3, s1, s2, s3):
+    """three levels: D3[D2[D1[A,s1],s2],s3] against (D1&D2&D3)[A, 's3 s2 s1'], evaluated on the real code"""
+    lhs = build(spec(d3, made(d2, made(d1, A, s1), s2), s3))
+    if isinstance(lhs, str) and lhs.startswith("INNER-"):
+        return
+    c1, c2, c3 = cat_spec(d1)["dtypes"], cat_spec(d2)["dtypes"], cat_spec(d3)["dtypes"]
+    i12 = inter(c2, c1)
+    it = None if i12 == [] else inter(c3, i12)
+    replay = {"nest3": [d1, d2, d3, s1, s2, s3]}
+    if i12 == [] or it == []:
+        if lhs != "VAL" and i12 != []:
+            out.violation("nest3:disjoint-dtypes-accepted", f"{d3}[{d2}[{d1}[A,{s1!r}],{s2!r}],{s3!r}] was built although the three categories share no dtype", replay)
+        return
+    flat_cat = makeimpl.cat_class(f"I_{d3}_{d2}_{d1}", it)
+    try:
+        rhs = flat_cat[makeimpl.build_aty(A), s3 + " " + s2 + " " + s1]
+    except ValueError:
+        rhs = "VAL"
+    lv, rv = vector(lhs), vector(rhs)
+    if lv != rv:
+        what = f"{d3}[{d2}[{d1}[A,{s1!r}],{s2!r}],{s3!r}] and ({d1}&{d2}&{d3})[A,{(s3 + ' ' + s2 + ' ' + s1)!r}] differ: "
+        if isinstance(lhs, str) or isinstance(rhs, str):
+            what += f"nested is {lv if isinstance(lhs, str) else 'built'}, flat is {rv if isinstance(rhs, str) else 'built'}"
+        else:
+            i = next(i for i, (a, b) in enumerate(zip(lv, rv)) if a != b)
+            what += f"probe {makeimpl.probes()[i]!r} nested={lv[i]} flat={rv[i]}"
+        out.violation("nest3:accepts-differently" if not (isinstance(lhs, str) or isinstance(rhs, str)) else "nest3:error-mismatch", what, replay)
+
+
 def union_specs(cat, dims):
     nested = made("Float", A, "x")
     return [
@@ -229,13 +258,19 @@ def run(tier, seed, out, drv, facts):
         if i in idx or partial and rng.chance(1, 3):
             check_nest_law(out, d1, d2, s1, s2, aty)
     # three levels
-    deep = []
-    for _ in range(600 if thorough else 120):
-        d1, d2, d3 = rng.choice(CATS), rng.choice(CATS), rng.choice(CATS)
+    deep, deep_meta = [], []
+    wide = ["Shaped", "Num", "Real", "Inexact", "Integer"]
+    for k in range(1500 if thorough else 300):
+        # the middle level is often wider than what lies beneath it: then the effective dtypes of the
+        # middle annotation differ from those of the category it was written with
+        d1, d2, d3 = rng.choice(CATS), (rng.choice(wide) if k % 2 else rng.choice(CATS)), rng.choice(CATS)
         s1, s2, s3 = rng.choice(["a", "*v", "", "3 b"]), rng.choice(["b", "", "... q", " c "]), rng.choice(["c", "", "*w", "#z"])
         deep.append(spec(d3, made(d2, made(d1, A, s1), s2), s3))
-    for s, r in zip(deep, compare_model(out, drv, deep, "nest3")):
+        deep_meta.append((d1, d2, d3, s1, s2, s3))
+    deep_meta = list(deep_meta)
+    for (d1, d2, d3, s1, s2, s3), s, r in zip(deep_meta, deep, compare_model(out, drv, deep, "nest3")):
         out.case(("nest3", json.dumps(s, sort_keys=True)), True, sample={"three_levels": s["dims"], "built": r.get("r")})
+        check_nest3_law(out, d1, d2, d3, s1, s2, s3)
     # ---- unions / TypeVars
     ucats = CATS if thorough else ["Float", "Int", "Bool", "Shaped", "Complex", "Key", "Num", "F32orI8", "OnlyBool", "UInt8"]
     udims = ["", "...", "a", "*v", " a b "] if thorough else ["", "a", "..."]
@@ -280,7 +315,9 @@ def run(tier, seed, out, drv, facts):
 
 
 def replay(rep, out, drv, facts):
-    if "outer" in rep:
+    if "nest3" in rep:
+        check_nest3_law(out, *rep["nest3"])
+    elif "outer" in rep:
         check_nest_law(out, rep["inner"], rep["outer"], rep["s1"], rep["s2"], rep["aty"])
     elif "scalar" in rep:
         check_scalar_law(out, rep["cat"], rep["scalar"], rep["dims"])
